@@ -100,9 +100,12 @@ def main():
         outs += pipe_common.run_corpus(ck, n // 4, profiles=gen2_profiles,
                                        want={"out_model": True, "extra": inplace_lib.extra_with_liverange}, corpus_first=False)
         # second-generation compilations kept because they exposed something: (profile, seed, index)
-        #   gen2:cpu/0/253  third generation with another allocator: the reported arena is the fresh allocation, the kept plan needs more
-        #   gen2:pattern/0/256  fc1_after_conv: the report of the second generation leaves out the existing scratch tensor
-        for prof, sd, ix in (("gen2:cpu", 0, 253), ("gen2:pattern", 0, 256)):
+        #   gen2:cpu/0/7  CAST,QUANTIZE,CAST,QUANTIZE on 1x1x19x1 uint8, LinearAlloc then Greedy on another accelerator: the reported
+        #                 arena (160) is the fresh allocation, the kept plan needs 275 (finding `...:other-options`).  After the merge
+        #                 with the newer generators the entry hist kept for this finding (gen2:cpu/0/253) is another network, one
+        #                 CONV_2D on the NPU, and shows the scratch-tensor finding; it stays as a second reproducer of that one
+        #   gen2:pattern/0/256  fc1_after_conv: the report of the later generations leaves out the existing scratch tensor (2064 < 8202)
+        for prof, sd, ix in (("gen2:cpu", 0, 7), ("gen2:cpu", 0, 253), ("gen2:pattern", 0, 256)):
             outs.append(pipe_common._worker((sd, ix, prof, {"out_model": True, "extra": inplace_lib.extra_with_liverange})))
     ip_known = inplace_lib.classify(ck, outs)
     lines, owners, extra = [], [], []
